@@ -228,6 +228,21 @@ def run(ctx, impl_only=False):
             if DeepHash(v, hashes=table, **kw)[v] != HS.deephash(v, **kw)[0]:
                 ctx.violate({'value': repr(v), 'mode': mname, 'scenario': 'long-lived shared table, earlier values freed'},
                             'a shared hashes table changes the hash (stale entry reused)'); break
+        # an unhashable value (entered in the table under its id) is freed and a hashable one (entered under its value) is allocated in its
+        # place: reading the digest of the second must not find the entry of the first
+        for k in range(200 if ctx.thorough() else 60):
+            tmp = {k, 'a', (k, 1)}
+            DeepHash(tmp, hashes=table, **kw)
+            del tmp
+            fs = frozenset([k + 5000, 'b'])
+            ctx.evaluations += 1
+            try:
+                got = DeepHash(fs, hashes=table, **kw)[fs]
+            except Exception as e:
+                got = 'raised ' + type(e).__name__
+            if got != HS.deephash(frozenset([k + 5000, 'b']), **kw)[0]:
+                ctx.violate({'value': repr(fs), 'mode': mname, 'scenario': 'long-lived shared table: a set hashed and freed, then a frozenset allocated in its place'},
+                            'a shared hashes table changes the hash (the entry of a freed object answers for a new one)'); break
         lst = [1, 2, ['x']]
         DeepHash(lst, hashes=table, **kw)
         lst[2].append('y'); lst.append(3)
